@@ -46,7 +46,9 @@ type Duty struct {
 	D        int       `json:"d"`               // slot = previous duty's slot + D (>= 1)
 	Value    string    `json:"value,omitempty"` // decided value: own | alt (consensus roles)
 	Net      string    `json:"net,omitempty"`   // broadcast fault armed when the duty starts: "" | fail (published, error returned) | lose (not published, error returned)
-	Cut      int       `json:"cut,omitempty"`   // > 0: only the first Cut arrivals are delivered (the duty is abandoned)
+	Fault    string    `json:"fault,omitempty"` // local fault armed when the duty starts: "" | sign-beacon | sign-root | domain (the next FaultN calls of KeyManager.SignBeaconObject / SignRoot / BeaconNode.DomainData fail)
+	FaultN   int       `json:"fault_n,omitempty"`
+	Cut      int       `json:"cut,omitempty"` // > 0: only the first Cut arrivals are delivered (the duty is abandoned)
 	Arrivals []Arrival `json:"arrivals"`
 }
 
@@ -60,6 +62,8 @@ type Prog struct {
 	Slot     uint64    `json:"slot"`
 	Value    string    `json:"value,omitempty"`
 	Net      string    `json:"net,omitempty"`
+	Fault    string    `json:"fault,omitempty"`
+	FaultN   int       `json:"fault_n,omitempty"`
 	Cut      int       `json:"cut,omitempty"`
 	Arrivals []Arrival `json:"arrivals"`
 	// further duties on the same runner
@@ -78,7 +82,7 @@ type Prog struct {
 // "share sent twice", "bad then good" and "good then bad" arise from several arrivals of one member.
 var faultKinds = []string{"good", "garbage", "infinity", "other-root", "other-key", "wrong-root", "wrong-slot"}
 
-var roles = []string{"attester", "proposer", "proposer-blinded", "voluntary-exit", "registration"}
+var roles = []string{"attester", "proposer", "proposer-blinded", "voluntary-exit", "registration", "aggregator", "attester", "proposer", "voluntary-exit", "registration"}
 
 func beaconRole(r string) spectypes.BeaconRole {
 	switch r {
@@ -86,6 +90,8 @@ func beaconRole(r string) spectypes.BeaconRole {
 		return spectypes.BNRoleAttester
 	case "proposer", "proposer-blinded":
 		return spectypes.BNRoleProposer
+	case "aggregator":
+		return spectypes.BNRoleAggregator
 	case "voluntary-exit":
 		return spectypes.BNRoleVoluntaryExit
 	case "registration":
@@ -107,38 +113,104 @@ type pending struct {
 	objs  []ssz.HashRoot // the duty objects of THIS duty, in the order a correct member lists them
 	roots [][32]byte     // hash-tree-roots of objs
 	dt    phase0.DomainType
-	own   *spectypes.SSVMessage // the runner's own partial-signature broadcast (nil if it was lost)
-	// failedStart: a call of the construction phase returned an error (only possible with an injected
-	// broadcast fault). The "cannot prevent" clause is not demanded of such a duty; (a) and (b) are.
+	own   *spectypes.SSVMessage // the runner's own partial-signature broadcast (nil if it was never made / lost)
+	// failedStart: an injected local fault (broadcast, key manager, DomainData) fired during the construction
+	// phase. firedAt says in which construction step(s): start, pre-share, decision.
 	failedStart bool
-	subBase     int // len(BN.Submits) when the duty started
-	log         []string
+	firedAt     map[string]bool
+	// exempt: the one situation in which the unchanged tree does not reach "partial signatures pending" after a
+	// local fault - see setup. Clause (c) is not demanded of such a duty (observation class); (a) and (b) are.
+	exempt  string
+	subBase int // len(BN.Submits) when the duty started
+	log     []string
 }
 
-// setup starts the duty for slot on the runner and brings it to "partial signatures pending". Without an
-// injected broadcast fault any error here is a harness error (panic).
-func setup(s *dutysim.Sim, role spectypes.BeaconRole, slot phase0.Slot, variant, net string) *pending {
-	pd := &pending{sim: s, role: role, id: s.MsgID(role), slot: slot, subBase: len(s.BN.Submits)}
+// fault is what is armed when a duty starts.
+type fault struct {
+	net  string // "" fail lose
+	kind string // "" sign-beacon sign-root domain
+	n    int
+}
+
+func (f fault) any() bool { return f.net != "" || f.kind != "" }
+
+func (f fault) String() string {
+	switch {
+	case f.net != "" && f.kind != "":
+		return "net-" + f.net + "+" + f.kind
+	case f.net != "":
+		return "net-" + f.net
+	}
+	return f.kind
+}
+
+// setup starts the duty for slot on the runner and brings it to "partial signatures pending".
+//
+// Local faults: the armed fault fires at the first matching call of the construction phase (executeDuty at
+// duty start; the runner's own post-consensus signing at the decision for the consensus roles; for a
+// multi-call fault possibly while a peer's pre-consensus share is processed) and whatever is left is disarmed
+// before the arrival phase. What the unchanged tree does after such an error (read from the code and confirmed
+// by the generated cases): baseStartNewDuty / baseStartNewNonBeaconDuty install the duty State BEFORE
+// executeDuty, so after executeDuty failed the duty is running without the own share: peers' pre-consensus shares
+// are validated against that State, collected, reconstructed at the quorum and (registration, exit) submitted,
+// or (proposer, aggregator, contribution) used to fetch the duty data and start consensus. A failure of the own
+// post-consensus signing / broadcast at the decision leaves State.DecidedValue set, so peers' post-consensus
+// shares are collected and submitted as well. Clause (c) is therefore demanded of all of these. The exception
+// (exempt): a DomainData failure while a PEER's pre-consensus share is validated (verifyExpectedRoot) drops
+// that share for good; if fewer than a quorum of pre-consensus shares remain, consensus never starts.
+//
+// Errors of construction steps in which no fault fired are not tolerated without an armed fault (harness
+// error, panic); with one they are logged and do NOT exempt the duty from clause (c).
+func setup(s *dutysim.Sim, role spectypes.BeaconRole, slot phase0.Slot, variant string, flt fault) *pending {
+	pd := &pending{sim: s, role: role, id: s.MsgID(role), slot: slot, subBase: len(s.BN.Submits), firedAt: map[string]bool{}}
 	s.Net.Drain()
-	switch net {
+	s.DisarmFaults()
+	n := flt.n
+	if n < 1 {
+		n = 1
+	}
+	switch flt.net {
 	case "fail":
 		s.Net.FailNext = 1
 	case "lose":
 		s.Net.LoseNext = 1
 	}
-	check := func(what string, err error) {
-		if err == nil {
-			return
+	switch flt.kind {
+	case "sign-beacon":
+		s.KM.FailBeacon = n
+	case "sign-root":
+		s.KM.FailRoot = n
+	case "domain":
+		s.BN.FailDomain = n
+	}
+	// step runs one construction operation; it reports whether the operation returned no error.
+	step := func(where, what string, f func() error) bool {
+		armed := s.ArmedFaults()
+		s.NextOp()
+		err := f()
+		fired := s.ArmedFaults() < armed
+		if fired {
+			pd.failedStart = true
+			pd.firedAt[where] = true
 		}
-		if net == "" {
+		if err == nil {
+			if fired {
+				pd.log = append(pd.log, fmt.Sprintf("  setup: fault fired in %s (no error returned)", what))
+			}
+			return true
+		}
+		if !flt.any() {
 			panic(fmt.Sprintf("setup: %s: %v", what, err))
 		}
-		pd.failedStart = true
-		pd.log = append(pd.log, fmt.Sprintf("  setup: %s returned: %v", what, err))
+		es := err.Error()
+		if len(es) > 170 {
+			es = es[:170] + "…"
+		}
+		pd.log = append(pd.log, fmt.Sprintf("  setup: %s returned (fault fired in it: %v): %s", what, fired, es))
+		return false
 	}
 	duty := s.Duty(role, slot)
-	s.NextOp()
-	check("start duty", s.StartDuty(duty))
+	step("start", "start duty", func() error { return s.StartDuty(duty) })
 	preType, hasPre := dutysim.PreType(role)
 	consensus := role != spectypes.BNRoleVoluntaryExit && role != spectypes.BNRoleValidatorRegistration
 	if !consensus {
@@ -146,9 +218,25 @@ func setup(s *dutysim.Sim, role spectypes.BeaconRole, slot phase0.Slot, variant,
 		pd.objs, pd.dt = s.PreObjects(duty)
 	} else {
 		if hasPre {
-			for _, id := range s.QuorumOthers() {
-				s.NextOp()
-				check(fmt.Sprintf("pre-consensus from %d", id), s.Deliver(dutysim.PartialSSV(pd.id, s.PreMsg(id, duty))))
+			// pre-consensus shares of the other members until a quorum of them has been taken
+			accepted, dropped, unexplained := 0, 0, 0
+			for _, id := range s.Others() {
+				if accepted >= s.Quorum {
+					break
+				}
+				armed := s.ArmedFaults()
+				if step("pre-share", fmt.Sprintf("pre-consensus from %d", id), func() error {
+					return s.Deliver(dutysim.PartialSSV(pd.id, s.PreMsg(id, duty)))
+				}) {
+					accepted++
+				} else if s.ArmedFaults() < armed {
+					dropped++
+				} else {
+					unexplained++
+				}
+			}
+			if accepted < s.Quorum && dropped > 0 && unexplained == 0 {
+				pd.exempt = "local-domain-fault-dropped-peer-pre-consensus-share"
 			}
 		}
 		if variant != "alt" {
@@ -158,15 +246,16 @@ func setup(s *dutysim.Sim, role spectypes.BeaconRole, slot phase0.Slot, variant,
 		if err := s.OracleValueCheck(role)(value); err != nil {
 			panic(fmt.Sprintf("setup: value %s invalid: %v", variant, err))
 		}
-		s.NextOp()
-		check("certificate", s.Deliver(dutysim.ConsensusSSV(pd.id, s.Cert(s.QuorumOthers(), pd.id[:], specqbft.Height(slot), 1, value))))
+		step("decision", "certificate", func() error {
+			return s.Deliver(dutysim.ConsensusSSV(pd.id, s.Cert(s.QuorumOthers(), pd.id[:], specqbft.Height(slot), 1, value)))
+		})
 		pd.typ = spectypes.PostConsensusPartialSig
 		var err error
 		if pd.objs, pd.dt, err = dutysim.PostObjects(role, value); err != nil {
 			panic(err)
 		}
 	}
-	s.Net.FailNext, s.Net.LoseNext = 0, 0
+	s.DisarmFaults()
 	for _, o := range pd.objs {
 		r, _ := o.HashTreeRoot()
 		pd.roots = append(pd.roots, r)
@@ -180,7 +269,7 @@ func setup(s *dutysim.Sim, role spectypes.BeaconRole, slot phase0.Slot, variant,
 			pd.own = m
 		}
 	}
-	if pd.own == nil && net == "" {
+	if pd.own == nil && !flt.any() {
 		panic("setup: the runner did not broadcast its own partial signature")
 	}
 	if len(s.BN.Submits) != pd.subBase {
@@ -261,7 +350,7 @@ func run(p Prog) *prog.Result {
 	s := dutysim.New(dutysim.Config{N: p.N, Self: spectypes.OperatorID(p.Self), Blinded: p.Role == "proposer-blinded", Direct: p.Direct})
 	defer s.Close()
 	quorum := 2*f + 1
-	duties := append([]Duty{{Value: p.Value, Net: p.Net, Cut: p.Cut, Arrivals: p.Arrivals}}, p.More...)
+	duties := append([]Duty{{Value: p.Value, Net: p.Net, Fault: p.Fault, FaultN: p.FaultN, Cut: p.Cut, Arrivals: p.Arrivals}}, p.More...)
 	if len(duties) > 3 {
 		duties = duties[:3]
 	}
@@ -276,14 +365,20 @@ func run(p Prog) *prog.Result {
 		if di > 0 {
 			slot += slotDelta(d.D)
 		}
-		pd := setup(s, role, slot, d.Value, d.Net)
-		trace = append(trace, fmt.Sprintf(" duty %d: slot %d epoch %d net=%q failed-start=%v", di, slot, dutysim.Network.EstimatedEpochAtSlot(slot), d.Net, pd.failedStart))
+		flt := fault{net: d.Net, kind: d.Fault, n: d.FaultN}
+		pd := setup(s, role, slot, d.Value, flt)
+		trace = append(trace, fmt.Sprintf(" duty %d: slot %d epoch %d fault=%q failed-start=%v exempt=%q", di, slot, dutysim.Network.EstimatedEpochAtSlot(slot), flt.String(), pd.failedStart, pd.exempt))
 		trace = append(trace, pd.log...)
-		if d.Net != "" {
-			classes["net="+d.Net] = true
+		if flt.any() {
+			classes["fault="+flt.String()] = true
 		}
 		if pd.failedStart {
 			classes["failed-start"] = true
+			for _, w := range []string{"start", "pre-share", "decision"} {
+				if pd.firedAt[w] {
+					classes["failed-start:"+flt.String()+"@"+w] = true
+				}
+			}
 		}
 		correctDelivered := map[int]bool{}
 		lastKind := map[int]string{}
@@ -354,7 +449,7 @@ func run(p Prog) *prog.Result {
 				}
 			}
 			// (c) cannot prevent: 2f+1 distinct correct members' shares delivered => every duty object submitted
-			if len(correctDelivered) >= quorum && !pd.failedStart {
+			if len(correctDelivered) >= quorum && pd.exempt == "" {
 				for i, c := range perObj {
 					if c != 1 {
 						sig := "C05:not-submitted-despite-correct-quorum"
@@ -465,6 +560,19 @@ func run(p Prog) *prog.Result {
 		}
 
 		submitted := len(s.BN.Submits) > pd.subBase
+		if pd.failedStart {
+			outcome := "correct-quorum-not-delivered"
+			switch {
+			case pd.exempt != "":
+				outcome = "NOT-GUARANTEED:" + pd.exempt
+				if submitted {
+					outcome += "(submitted anyway)"
+				}
+			case submitted:
+				outcome = "submitted"
+			}
+			classes["failed-start:role="+p.Role+":"+outcome] = true
+		}
 		if submitted {
 			classes["submitted"] = true
 			if di > 0 {
@@ -540,8 +648,22 @@ func genArrivals(t *rapid.T, n int, isFaulty map[int]bool) []Arrival {
 	return perm
 }
 
-func genNet(t *rapid.T) string {
-	return rapid.SampledFrom([]string{"", "", "", "", "", "", "", "", "fail", "lose"}).Draw(t, "net")
+// genFault draws what is armed at a duty's start: nothing (70%), a broadcast fault, or the next 1-3 calls of
+// KeyManager.SignBeaconObject / KeyManager.SignRoot / BeaconNode.DomainData failing.
+func genFault(t *rapid.T) (net, kind string, n int) {
+	switch rapid.SampledFrom([]string{"", "", "", "", "", "", "", "", "", "", "", "", "", "", "net-fail", "net-lose", "sign-beacon", "sign-root", "domain", "domain"}).Draw(t, "fault") {
+	case "net-fail":
+		return "fail", "", 0
+	case "net-lose":
+		return "lose", "", 0
+	case "sign-beacon":
+		return "", "sign-beacon", rapid.SampledFrom([]int{1, 1, 2, 3}).Draw(t, "fault-n")
+	case "sign-root":
+		return "", "sign-root", rapid.SampledFrom([]int{1, 1, 2, 3}).Draw(t, "fault-n")
+	case "domain":
+		return "", "domain", rapid.SampledFrom([]int{1, 1, 2, 3}).Draw(t, "fault-n")
+	}
+	return "", "", 0
 }
 
 func genCut(t *rapid.T, n int) int {
@@ -577,7 +699,7 @@ func genProg(roleSet []string, sizes []int) func(t *rapid.T) Prog {
 		for _, x := range p.Faulty {
 			isFaulty[x] = true
 		}
-		p.Net = genNet(t)
+		p.Net, p.Fault, p.FaultN = genFault(t)
 		p.Arrivals = genArrivals(t, p.N, isFaulty)
 		p.Cut = genCut(t, len(p.Arrivals))
 		// further duties on the same runner: the next slots for the per-slot roles, another (sometimes the
@@ -588,7 +710,8 @@ func genProg(roleSet []string, sizes []int) func(t *rapid.T) Prog {
 		}
 		more := rapid.SampledFrom([]int{0, 0, 0, 1, 1, 1, 2}).Draw(t, "more")
 		for i := 0; i < more; i++ {
-			d := Duty{D: rapid.SampledFrom(deltas).Draw(t, "d"), Value: rapid.SampledFrom([]string{"own", "own", "alt"}).Draw(t, "value"), Net: genNet(t)}
+			d := Duty{D: rapid.SampledFrom(deltas).Draw(t, "d"), Value: rapid.SampledFrom([]string{"own", "own", "alt"}).Draw(t, "value")}
+			d.Net, d.Fault, d.FaultN = genFault(t)
 			d.Arrivals = genArrivals(t, p.N, isFaulty)
 			d.Cut = genCut(t, len(d.Arrivals))
 			p.More = append(p.More, d)
